@@ -4,7 +4,17 @@ package repository
 
 // Thin export wrappers for the /verif harness (C03). No logic.
 
-import "time"
+import (
+	"context"
+	"time"
+
+	"github.com/restic/restic/internal/restic"
+)
 
 // VerifC03SetLockWait shortens the pause before the lock re-check (as TestSetLockTimeout does for tests).
 func VerifC03SetLockWait(d time.Duration) { waitBeforeLockCheck = d }
+
+// VerifC03SaveUnpacked saves an unpacked file of any type (index files are re-split per pack).
+func VerifC03SaveUnpacked(ctx context.Context, r *Repository, t restic.FileType, buf []byte) (restic.ID, error) {
+	return r.saveUnpacked(ctx, t, buf)
+}
